@@ -111,6 +111,13 @@ CLAIMS['C05'] = ('bounded symbolic execution (CrossHair/z3): expand() on value s
                  'preserving for every channel 0..255 and the short/long/rgba/transparent form is selected correctly for all 2^24 colours '
                  '(printers + selection lemma compose); 16 colour spellings end to end.', '§3 C05')
 
+CLAIMS['C06'] = ('bounded symbolic execution (CrossHair/z3) with solver-chosen indices over the whole stylesheet snippet table, keyword table, scope and '
+                 'user-key pairs; expectation from a reference reader of the definition text',
+                 'Table-exhaustive: every key expands to the property/first value (or raw body) read from its own definition, with and without '
+                 'scope; every single-word keyword alternative resolves in three letter-case patterns; for every ordered pair of user keys over '
+                 '{q,w,-} the typed key reaches its own snippet (direct-hit shortcut cannot pre-empt it); user snippets replace built-ins.',
+                 '§3 C06')
+
 NOT_YET = {}
 
 
